@@ -7,6 +7,23 @@ mod replay;
 mod sched;
 mod track;
 
+// library/src/android.rs is compiled for Android and under cfg(test) only, so the library this harness links does not
+// contain it; the file itself is included here (what it needs from its crate: InitError and the logging macros) so
+// that the code that reads the bundled libapp.so out of the APK - the `base` oracle of the model on Android - runs.
+#[allow(unused_macros)]
+macro_rules! shorebird_debug { ($($t:tt)*) => {{ let _ = format!($($t)*); }}; }
+#[allow(unused_macros)]
+macro_rules! shorebird_info { ($($t:tt)*) => {{ let _ = format!($($t)*); }}; }
+#[allow(unused_macros)]
+macro_rules! shorebird_warn { ($($t:tt)*) => {{ let _ = format!($($t)*); }}; }
+#[allow(unused_macros)]
+macro_rules! shorebird_error { ($($t:tt)*) => {{ let _ = format!($($t)*); }}; }
+#[allow(unused_imports)]
+pub use updater::InitError;
+#[allow(dead_code)]
+#[path = "/repo/library/src/android.rs"]
+mod android_src;
+
 #[global_allocator]
 static GLOBAL: track::Track = track::Track;
 
@@ -54,6 +71,21 @@ fn main() {
                 Err(e) => println!("err {}", e),
             }
             0
+        }
+        "jsonbodies" => codec::jsonbodies(&args[2..]),
+        "baselib" => {
+            // uvh baselib <apks dir> <out file>: what android::open_base_lib hands to inflate as the base
+            match android_src::open_base_lib(std::path::Path::new(&args[2]), "libapp.so") {
+                Ok(c) => {
+                    std::fs::write(&args[3], c.into_inner()).expect("write");
+                    println!("baselib=ok");
+                    0
+                }
+                Err(e) => {
+                    println!("baselib=err {}", e.to_string().replace('\n', " "));
+                    0
+                }
+            }
         }
         "sched" => sched::main(&args[2..]),
         other => {
